@@ -870,6 +870,10 @@ type runner struct {
 	outDir        string // run directory (goroutine dumps of hung servers go there)
 	hangs         int
 	followUps     int
+	// the slowest exchange of the run (evidence: a request that needs seconds on a quiet machine is worth a look)
+	slowest     time.Duration
+	slowestReq  string
+	slowestLine string
 }
 
 func (rn *runner) restart() {
@@ -1036,6 +1040,9 @@ func run(seed uint64, n int, dir string, deepmp int) {
 		rn.deepMsgpack(deepmp)
 	}
 	rn.replays.Flush()
+	if rn.slowestLine != "" {
+		os.WriteFile(filepath.Join(dir, "slowest.txt"), []byte(strings.Join(append(append([]string{}, rn.setup...), rn.slowestLine), "\n")+"\n"), 0o644)
+	}
 	for _, f := range fails {
 		o.Fail(f.Signature, f.What, f.Replay)
 	}
@@ -1057,6 +1064,7 @@ func run(seed uint64, n int, dir string, deepmp int) {
 		"http_requests":       rn.judged,
 		"server_deaths":       rn.deaths,
 		"fuzz_wall_s":         time.Since(t0).Seconds(),
+		"slowest_request":     fmt.Sprintf("%.1fs %s", rn.slowest.Seconds(), rn.slowestReq),
 		"seed":                seed,
 	})
 }
@@ -1096,7 +1104,14 @@ func (rn *runner) replayFor(key string, req request, hline string) []string {
 // the model). After one confirmed hang later time-outs of the run are reported at once.
 func (rn *runner) exchange(req request) (resp response, retried bool) {
 	c := rn.w.c
+	t0 := time.Now()
 	resp = c.do(req)
+	if d := time.Since(t0); d > rn.slowest {
+		rn.slowest, rn.slowestReq = d, req.method+" "+req.path+" "+req.ctype+" ("+strconv.Itoa(len(req.body))+" bytes)"
+		if d > 5*time.Second {
+			rn.slowestLine = req.line()
+		}
+	}
 	if resp.err != nil && isTimeout(resp.err) && c.alive() && !rn.hangConfirmed {
 		rn.statusCt["timeout-first-attempt"]++
 		if c.waitPing(60 * time.Second) {
